@@ -41,14 +41,24 @@ fn text(id: u64, salt: u64, len: usize) -> String {
 /// request / response body delivered in chunks; with `exact` the length is announced up front
 /// (content-length), otherwise it is not (chunked on HTTP/1)
 #[derive(Default)]
-pub struct ChunkBody { data: Bytes, pos: usize, chunk: usize, exact: bool, gap: Option<Pin<Box<tokio::time::Sleep>>>, gap_ms: u64 }
+pub struct ChunkBody { data: Bytes, pos: usize, chunk: usize, exact: bool, gap: Option<Pin<Box<tokio::time::Sleep>>>, gap_ms: u64,
+                       /// when set, the body is hyperdriver's own `Body` (full / empty) and every `http_body::Body` method is its answer
+                       own: Option<Body> }
 impl ChunkBody {
-    fn new(data: Vec<u8>, chunk: usize, exact: bool, gap_ms: u64) -> Self { ChunkBody { data: data.into(), pos: 0, chunk: chunk.max(1), exact, gap: None, gap_ms } }
+    fn new(data: Vec<u8>, chunk: usize, exact: bool, gap_ms: u64) -> Self { ChunkBody { data: data.into(), pos: 0, chunk: chunk.max(1), exact, gap: None, gap_ms, own: None } }
+    /// the same bytes as hyperdriver's `Body`, built the ways a caller builds one
+    fn own(data: Vec<u8>, how: u64) -> Self {
+        let b = if data.is_empty() && how % 2 == 0 { Body::empty() } else {
+            match how % 4 { 0 => Body::from(data), 1 => Body::full(data), 2 => Body::from(Bytes::from(data)), _ => Body::from(http_body_util::Full::new(Bytes::from(data))) }
+        };
+        ChunkBody { own: Some(b), ..Default::default() }
+    }
 }
 impl http_body::Body for ChunkBody {
     type Data = Bytes;
     type Error = BoxError;
     fn poll_frame(mut self: Pin<&mut Self>, cx: &mut Context<'_>) -> Poll<Option<Result<http_body::Frame<Bytes>, BoxError>>> {
+        if let Some(b) = self.own.as_mut() { return Pin::new(b).poll_frame(cx).map(|o| o.map(|r| r.map_err(Into::into))); }
         if self.pos >= self.data.len() { return Poll::Ready(None); }
         if let Some(g) = self.gap.as_mut() {
             if g.as_mut().poll(cx).is_pending() { return Poll::Pending; }
@@ -60,8 +70,9 @@ impl http_body::Body for ChunkBody {
         if self.gap_ms > 0 && self.pos < self.data.len() { self.gap = Some(Box::pin(tokio::time::sleep(Duration::from_millis(self.gap_ms)))); }
         Poll::Ready(Some(Ok(http_body::Frame::data(out))))
     }
-    fn is_end_stream(&self) -> bool { self.pos >= self.data.len() }
+    fn is_end_stream(&self) -> bool { if let Some(b) = &self.own { return b.is_end_stream(); } self.pos >= self.data.len() }
     fn size_hint(&self) -> http_body::SizeHint {
+        if let Some(b) = &self.own { return b.size_hint(); }
         if self.exact { http_body::SizeHint::with_exact((self.data.len() - self.pos) as u64) } else { http_body::SizeHint::default() }
     }
 }
@@ -239,7 +250,7 @@ async fn handler(log: Arc<Mutex<SrvLog>>, me: usize, req: http::Request<Body>) -
         .header("x-server", me.to_string())
         .header("x-body-digest", format!("{:x}", fnv(&body)))
         .header("x-resp-custom", format!("r{}", id))
-        .body(ChunkBody::new(pat(id, 2, rlen), hn("x-rc") as usize % 10_000_000, h("x-re") == "1", 0))?;
+        .body(if h("x-re") == "1" && id % 4 == 2 { ChunkBody::own(pat(id, 2, rlen), id / 4) } else { ChunkBody::new(pat(id, 2, rlen), hn("x-rc") as usize % 10_000_000, h("x-re") == "1", 0) })?;
     Ok(resp)
 }
 
@@ -263,7 +274,8 @@ fn build(r: &R, tls: bool) -> http::Request<ChunkBody> {
         .header("x-d", r.delay.to_string()).header("x-rl", r.rlen.to_string()).header("x-rc", r.rchunk.to_string())
         .header("x-re", if r.rexact { "1" } else { "0" }).header("x-custom", format!("v{}", r.id))
         .header("x-ul", r.blen.to_string())
-        .body(if upgrade { ChunkBody::default() } else { ChunkBody::new(pat(r.id, 1, r.blen), r.bchunk, r.bexact, if r.id % 3 == 0 && !real_time() { 1 } else { 0 }) })
+        .body(if upgrade { ChunkBody::default() } else if r.bexact && r.id % 4 == 1 { ChunkBody::own(pat(r.id, 1, r.blen), r.id / 4) }
+              else { ChunkBody::new(pat(r.id, 1, r.blen), r.bchunk, r.bexact, if r.id % 3 == 0 && !real_time() { 1 } else { 0 }) })
         .unwrap()
 }
 
